@@ -22,8 +22,9 @@ struct Profile {
 };
 
 #define K(x) (1u << (x))
-// EV* (FK_EVT) is not drawn: see DESIGN.md (coverage limits)
+// EV* (relations only) is drawn in the profiles whose properties name it
 static const unsigned K_ALL = K(FK_MTB)|K(FK_MTI)|K(FK_MTR)|K(FK_EVP);
+static const unsigned K_EVT = K(FK_EVT);
 
 static const std::vector<OpW> BUILD = {
     {"mkconst", 4}, {"mkvar", 6}, {"mkmt", 10}, {"mkcollmax", 12}, {"mkcollmin", 8}
@@ -43,7 +44,7 @@ static const Profile& profileFor(const std::string &prop)
 {
     static std::map<std::string, Profile> P;
     if (P.empty()) {
-        P["C01"] = { "C01", K_ALL, true, true, false,
+        P["C01"] = { "C01", K_ALL|K_EVT, true, true, false,
             cat({BUILD, CHURN, {{"bin", 20}, {"compl", 4}, {"copy", 10}, {"rebuild", 20}, {"masscopy", 1}}}), false, false };
         P["C02"] = { "C02", K_ALL|K(FK_IDX), true, true, false,
             cat({BUILD, CHURN, {{"bin", 25}, {"compl", 4}, {"copy", 8}, {"cross", 3}, {"image", 4}, {"reorder", 2}, {"index", 2}, {"unary", 4}}}), false, false };
@@ -51,7 +52,7 @@ static const Profile& profileFor(const std::string &prop)
             cat({BUILD, BUILD, BUILD, {{"release", 6}, {"purge", 1}, {"reorder", 1}}}), false, false };
         P["C04"] = { "C04", K(FK_MTB), true, true, false,
             cat({BUILD, CHURN, {{"bin", 40}, {"compl", 10}, {"cross", 8}, {"copy", 6}}}), false, false };
-        P["C05"] = { "C05", K(FK_MTI)|K(FK_MTR)|K(FK_EVP)|K(FK_MTB), true, true, false,
+        P["C05"] = { "C05", K(FK_MTI)|K(FK_MTR)|K(FK_EVP)|K(FK_MTB)|K_EVT, true, true, false,
             cat({BUILD, CHURN, {{"bin", 50}, {"unary", 10}, {"range", 8}, {"misuse", 2}}}), false, false };
         P["C06"] = { "C06", K_ALL, true, true, false,
             cat({BUILD, CHURN, CHURN, {{"bin", 25}, {"copy", 5}, {"masscopy", 2}, {"hoard", 5}, {"unhoard", 9}, {"drain", 4}, {"detach", 2}, {"iteropen", 2}, {"iterstep", 4}, {"image", 3}, {"reach", 2}}}), false, false };
@@ -61,7 +62,7 @@ static const Profile& profileFor(const std::string &prop)
             cat({BUILD, {{"reach", 30}, {"bin", 6}, {"release", 4}, {"purge", 2}, {"copy", 2}}}), false, false };
         P["C09"] = { "C09", K(FK_MTB)|K(FK_MTI)|K(FK_EVP)|K(FK_MTR), true, true, false,
             cat({BUILD, {{"image", 30}, {"vmmult", 14}, {"bin", 4}, {"release", 4}, {"purge", 2}}}), false, false };
-        P["C10"] = { "C10", K_ALL, true, true, false,
+        P["C10"] = { "C10", K_ALL|K_EVT, true, true, false,
             cat({BUILD, CHURN, {{"copy", 50}, {"bin", 6}}}), false, false };
         P["C11"] = { "C11", K_ALL|K(FK_IDX), true, true, false,
             cat({BUILD, {{"iter", 25}, {"iteropen", 5}, {"iterstep", 12}, {"card", 15}, {"counts", 12}, {"bin", 8}, {"release", 4}, {"index", 3}, {"bigcard", 4}}}), false, false };
@@ -76,7 +77,7 @@ static const Profile& profileFor(const std::string &prop)
         P["C16"] = { "C16", K_ALL, true, true, true,
             cat({BUILD, CHURN, {{"misuse", 30}, {"bin", 25}, {"iter", 4}, {"copy", 3}}}), false, false };
         P["C17"] = { "C17", K_ALL, true, true, true,
-            cat({BUILD, CHURN, {{"bin", 20}, {"copy", 6}, {"killforest", 6}, {"killdomain", 1}, {"newforest", 5}, {"restart", 2}, {"iteropen", 3}, {"iterstep", 3}, {"image", 3}, {"misuse", 2}}}), true, false };
+            cat({BUILD, CHURN, {{"bin", 20}, {"copy", 6}, {"killforest", 6}, {"killdomain", 1}, {"newforest", 5}, {"restart", 2}, {"iteropen", 3}, {"iterstep", 3}, {"image", 8}, {"vmmult", 3}, {"reach", 3}, {"misuse", 2}}}), true, false };
         P["C20"] = { "C20", K(FK_MTB), true, true, false,
             cat({BUILD, {{"satpart", 30}, {"bin", 6}, {"release", 4}, {"purge", 2}}}), false, false };
     }
@@ -148,7 +149,7 @@ void generatePlan(uint64_t seed, const GenOptions &opt, Plan &P)
     if ((pf.kinds & K(FK_MTB)) && R.chance(1, 2)) focus.push_back(FK_MTB);
     const std::string pr = opt.prop;
     if (pr == "C20" || pr == "C04") { focus.clear(); focus.push_back(FK_MTB); }
-    if (pr == "C08") { focus.clear(); focus.push_back(FK_MTB); focus.push_back(FK_MTB); focus.push_back(FK_MTI); focus.push_back(FK_EVP); }
+    if (pr == "C08") { focus.clear(); focus.push_back(FK_MTB); focus.push_back(FK_MTI); focus.push_back(FK_EVP); focus.push_back(FK_EVP); }
     if (pr == "C15") { focus.clear(); focus.push_back(FK_MTB); focus.push_back(FK_IDX); }
     for (int i = 0; i < nfor; i++) {
         ForSpec f;
